@@ -1,0 +1,117 @@
+//! Observation hooks for external runtime monitors.
+//!
+//! Compiled only with the cargo feature `verif-hooks` (off by default).
+//! The hooks append to a thread-local event log and bump process-wide
+//! counters; they never influence what the compiler does.
+use std::cell::RefCell;
+use std::sync::atomic::{AtomicU64, Ordering};
+
+#[derive(Debug, Clone, PartialEq)]
+pub enum Event {
+    /// One per top-level assignment returned by the lexer.
+    Lexed {
+        module: String,
+        name: String,
+        kind: &'static str,
+        parameterized: bool,
+    },
+    /// A definition replaced another one in the validator's name-keyed map.
+    Keyed {
+        name: String,
+        module: String,
+        replaced_module: String,
+    },
+    /// Backend tagging/extensibility defaults around the per-module overwrite.
+    ModuleEnv {
+        module: String,
+        tagging_before: String,
+        tagging_after: String,
+        tagging_header: String,
+        ext_before: String,
+        ext_after: String,
+        ext_header: String,
+    },
+    /// Outcome of generating one top-level definition.
+    TldOutcome {
+        module: String,
+        name: String,
+        kind: &'static str,
+        outcome: &'static str,
+        tokens: usize,
+    },
+}
+
+thread_local! {
+    static LOG: RefCell<Vec<Event>> = const { RefCell::new(Vec::new()) };
+}
+
+/// Logical-step counter (linker loop iterations and recursive linker calls).
+pub static TICKS: AtomicU64 = AtomicU64::new(0);
+/// Current and maximum depth of the instrumented recursive linker functions.
+pub static DEPTH: AtomicU64 = AtomicU64::new(0);
+pub static MAX_DEPTH: AtomicU64 = AtomicU64::new(0);
+
+pub fn record(e: Event) {
+    LOG.with(|l| l.borrow_mut().push(e));
+}
+
+/// Takes the calling thread's event log.
+pub fn drain() -> Vec<Event> {
+    LOG.with(|l| std::mem::take(&mut *l.borrow_mut()))
+}
+
+pub fn reset_counters() {
+    TICKS.store(0, Ordering::Relaxed);
+    DEPTH.store(0, Ordering::Relaxed);
+    MAX_DEPTH.store(0, Ordering::Relaxed);
+}
+
+pub fn tick() {
+    TICKS.fetch_add(1, Ordering::Relaxed);
+}
+
+pub struct DepthGuard;
+
+pub fn enter() -> DepthGuard {
+    TICKS.fetch_add(1, Ordering::Relaxed);
+    let d = DEPTH.fetch_add(1, Ordering::Relaxed) + 1;
+    MAX_DEPTH.fetch_max(d, Ordering::Relaxed);
+    DepthGuard
+}
+
+impl Drop for DepthGuard {
+    fn drop(&mut self) {
+        DEPTH.fetch_sub(1, Ordering::Relaxed);
+    }
+}
+
+pub fn tld_kind(tld: &crate::intermediate::ToplevelDefinition) -> &'static str {
+    use crate::intermediate::information_object::ASN1Information;
+    use crate::intermediate::ToplevelDefinition as T;
+    match tld {
+        T::Type(_) => "Type",
+        T::Value(_) => "Value",
+        T::Class(_) => "Class",
+        T::Object(o) => match o.value {
+            ASN1Information::ObjectSet(_) => "ObjectSet",
+            ASN1Information::Object(_) => "Object",
+        },
+        T::Macro(_) => "Macro",
+    }
+}
+
+pub fn tld_parameterized(tld: &crate::intermediate::ToplevelDefinition) -> bool {
+    use crate::intermediate::ToplevelDefinition as T;
+    match tld {
+        T::Type(t) => t.parameterization.is_some(),
+        T::Value(v) => v.parameterization.is_some(),
+        T::Class(c) => !c.parameterization.parameters.is_empty(),
+        T::Object(o) => o.parameterization.is_some(),
+        T::Macro(_) => false,
+    }
+}
+
+pub fn tld_module(tld: &crate::intermediate::ToplevelDefinition) -> String {
+    tld.get_module_header()
+        .map_or(String::new(), |m| m.borrow().name.clone())
+}
